@@ -1,6 +1,7 @@
 use crate::{rng::Rng, Emit};
 pub mod c09;
 pub mod c15;
+pub mod c16;
 
 pub fn eval(op: &str, args: &[&str]) -> Option<String> {
     // "m." ops are the same implementation operation, compared with the implementation-mirroring model
@@ -10,6 +11,7 @@ pub fn eval(op: &str, args: &[&str]) -> Option<String> {
     match prop {
         "c09" => c09::eval(op, args),
         "c15" => c15::eval(op, args),
+        "c16" => c16::eval(op, args),
         _ => None,
     }
 }
@@ -18,6 +20,7 @@ pub fn generate(prop: &str, thorough: bool, rng: &mut Rng, em: &mut Emit) {
     match prop {
         "C09" => c09::generate(thorough, rng, em),
         "C15" => c15::generate(thorough, rng, em),
+        "C16" => c16::generate(thorough, rng, em),
         _ => panic!("unknown property {}", prop),
     }
 }
